@@ -168,8 +168,75 @@ func StripNot(v ssa.Value) (ssa.Value, bool) {
 	}
 }
 
-// Conditions returns the branch conditions known to hold on every path to block b.
+// Conditions returns the branch conditions known to hold on every path to block b. A
+// condition on a materialised boolean (flag := a && b; if flag ...; or the flag a small
+// helper returned) is looked through: when only one incoming edge of the phi can carry the
+// tested truth value, what holds on that edge holds as well.
 func Conditions(b *ssa.BasicBlock) []Cond {
+	base := baseConditions(b)
+	out := append([]Cond(nil), base...)
+	seen := map[*ssa.Phi]bool{}
+	var through func(cd Cond, depth int)
+	through = func(cd Cond, depth int) {
+		phi, ok := cd.Val.(*ssa.Phi)
+		if !ok || depth > 3 || seen[phi] {
+			return
+		}
+		if bt, isBasic := phi.Type().Underlying().(*types.Basic); !isBasic || bt.Kind() != types.Bool {
+			return
+		}
+		seen[phi] = true
+		cand := -1
+		n := 0
+		for i, e := range phi.Edges {
+			if k, isK := e.(*ssa.Const); isK && k.Value != nil {
+				if (k.Value.String() == "true") != cd.Truth {
+					continue
+				}
+			}
+			cand = i
+			n++
+		}
+		if n != 1 {
+			return
+		}
+		pred := phi.Block().Preds[cand]
+		extra := baseConditions(pred)
+		// the edge pred -> phi block itself
+		if len(pred.Instrs) > 0 {
+			if ifi, isIf := pred.Instrs[len(pred.Instrs)-1].(*ssa.If); isIf && len(pred.Succs) == 2 && pred.Succs[0] != pred.Succs[1] {
+				for si, sb := range pred.Succs {
+					if sb == phi.Block() {
+						v, neg := StripNot(ifi.Cond)
+						truth := si == 0
+						if neg {
+							truth = !truth
+						}
+						extra = append(extra, Cond{If: ifi, Val: v, Truth: truth})
+					}
+				}
+			}
+		}
+		if _, isK := phi.Edges[cand].(*ssa.Const); !isK {
+			v, neg := StripNot(phi.Edges[cand])
+			truth := cd.Truth
+			if neg {
+				truth = !truth
+			}
+			extra = append(extra, Cond{If: cd.If, Val: v, Truth: truth})
+		}
+		for _, e := range extra {
+			out = append(out, e)
+			through(e, depth+1)
+		}
+	}
+	for _, cd := range base {
+		through(cd, 0)
+	}
+	return out
+}
+
+func baseConditions(b *ssa.BasicBlock) []Cond {
 	var out []Cond
 	fn := b.Parent()
 	for _, d := range fn.Blocks {
